@@ -670,6 +670,69 @@ class Put(StateSpec):
                 ("inv holds for the new view", inv(vals, I2))]
 
 
+class SetItemTensors(Spec):
+    """State.__setitem__ on real tensors (the abstract-value units cannot see value-dependent short cuts): whatever the assigned
+    tensor is -- in particular when it equals, entry by entry, the value already held -- the assignment stores it, resets every
+    dependent and, with auto-fork on, takes a NEW fork holding the pre-assignment entries of the variable and of its dependents
+    (an earlier fork must not survive: reverting to it would undo an accepted change)."""
+    target = STATE + ".__setitem__"
+
+    def configs(self):
+        return [dict(equal=e, fork=f) for e in (False, True) for f in ("ref", "none")]
+
+    def setup(self, cx, cfg):
+        import types
+        from pyvc.tensor import STensor
+        from pyvc.core import Symbolic
+        from leaspy.variables.state import State, StateForkType
+        n = z3.Int("n_rows")
+        cx.assume(n >= 1)
+        cur = STensor.sym(cx, "current_x", (n,))
+        new = STensor(cur.shape_, cur.fn, "real", "assigned_x") if cfg["equal"] else STensor.sym(cx, "assigned_x", (n,))
+        child1, child2 = STensor.sym(cx, "cached_y", (n,)), STensor.sym(cx, "cached_z", ())
+        values = {"x": cur, "y": child1, "z": child2, "other": STensor.sym(cx, "cached_other", (n,))}
+        old_fork = {"other": STensor.sym(cx, "older_fork_entry", (n,))}          # left by an earlier assignment to another variable
+
+        class DagStub(Symbolic):
+            def _getattr(self_, it, name, node=None):
+                if name == "sorted_children":
+                    return {"x": ("y", "z"), "other": (), "y": ("z",), "z": ()}
+                raise OutOfSubset(f"dag.{name}")
+
+            def _getitem(self_, it, k, node=None):
+                return types.SimpleNamespace(is_settable=(k in ("x", "other")))
+
+            def _contains(self_, it, k, node=None):
+                return k in ("x", "y", "z", "other")
+        s = SymObj(State, dict(dag=DagStub(), _values=values, _last_fork=old_fork,
+                               auto_fork_type=StateForkType.REF if cfg["fork"] == "ref" else None))
+        return dict(args=(s, "x", new), self=s, cur=cur, new=new, values=values, old_fork=old_fork, children=(child1, child2))
+
+    def post(self, cx, st, out):
+        s, vals = st["self"], st["self"].f["_values"]
+        from pyvc.tensor import STensor
+        orig = dict(y=st["children"][0], z=st["children"][1])
+        shape_ok = isinstance(vals, dict) and isinstance(vals.get("x"), STensor) and vals["x"].ndim == 1 \
+            and all(vals.get(c) is None or vals.get(c) is orig[c] for c in orig) \
+            and vals.get("other") is st["values"]["other"] and sorted(vals) == ["other", "x", "y", "z"]
+        res = [("every dependent is reset (or still holds its cached value), nothing else changes", z3.BoolVal(bool(shape_ok)))]
+        if shape_ok:
+            i = z3.Int("i_set")
+            res.append(("the variable holds the assigned values", z3.ForAll([i], z3.Implies(vals["x"].in_range((i,)), vals["x"].fn((i,)) == st["new"].fn((i,))))))
+            if any(vals.get(c) is orig[c] for c in orig):
+                res.append(("a dependent may stay cached only when the assigned values are the ones already held (it is then still valid)",
+                            z3.ForAll([i], z3.Implies(st["cur"].in_range((i,)), st["new"].fn((i,)) == st["cur"].fn((i,))))))
+        fork = s.f.get("_last_fork")
+        if st["cfg"]["fork"] == "ref":
+            ok = isinstance(fork, dict) and fork is not st["old_fork"] and sorted(fork) == ["x", "y", "z"] and fork["x"] is st["cur"] \
+                and fork["y"] is st["children"][0] and fork["z"] is st["children"][1]
+            res.append(("a new fork holds exactly the pre-assignment entries of the variable and of its dependents", z3.BoolVal(bool(ok))))
+        else:
+            res.append(("with auto-fork off no fork is left", z3.BoolVal(fork is None)))
+        return res
+
+
+
 class ToCache(Spec):
     """StateForkType.to_cache: REF keeps the very same dict, COPY returns an equal dict that is a different object -- and whose
     tensors (plain, or the value / weight of a weighted tensor) share no storage with the originals, as documented
@@ -733,7 +796,7 @@ class ToCache(Spec):
         return res
 
 
-UNITS += [Put(), AutoFork(), ToCache()]
+UNITS += [Put(), AutoFork(), ToCache(), SetItemTensors()]
 CALLEES += []
 
 # dag.wf() -- sorted_children / sorted_ancestors are the transitive closures -- is the precondition of every unit above; the
